@@ -305,6 +305,51 @@ fn structured_pairs(t: &mut Trace, tier: &str, rng: &mut Rng) -> (u64, u64) {
     (n_pairs, n_calls)
 }
 
+/// spatially coherent histories: raster scans with rows of various lengths and random walks, thousands of lookups on one
+/// thread (recently-used lists and their eviction bookkeeping only misbehave after N DISTINCT neighbours); every answer
+/// is compared with the answer of a fresh thread
+fn tracks(t: &mut Trace, tier: &str, rng: &mut Rng) -> u64 {
+    let ntracks = if tier == "thorough" { 24 } else { 6 };
+    let mut n = 0;
+    for k in 0..ntracks {
+        let res = [10, 14, 20, 27, 12, 18, 25, 8][k % 8];
+        let step = 0.7 * crate::geo::cell_size(res).to_degrees();
+        let z = 1.6 * rng.f64() - 0.8;
+        let (lon0, lat0) = (360.0 * rng.f64() - 180.0, z.asin().to_degrees());
+        let mut pts: Vec<(f64, f64)> = vec![];
+        if k % 2 == 0 {
+            let row = [23usize, 40, 64, 37, 90, 17][k / 2 % 6];
+            for i in 0..(row * 30) { pts.push((lon0 + (i % row) as f64 * step / (lat0.to_radians().cos()), lat0 + (i / row) as f64 * step)); }
+        } else {
+            let (mut lo, mut la) = (lon0, lat0);
+            for _ in 0..1500 { lo += (rng.f64() - 0.5) * 3.0 * step / la.to_radians().cos().max(0.1); la = (la + (rng.f64() - 0.5) * 3.0 * step).clamp(-89.0, 89.0); pts.push((lo, la)); }
+        }
+        let p2 = pts.clone();
+        let warm: Vec<String> = in_fresh_thread(move || p2.iter().map(|&(lo, la)| format!("{:x?}", a5::lonlat_to_cell(LonLat::new(lo, la), res))).collect());
+        // cold answers: fresh thread per call is too slow for thousands; use a thread that sees the points in a scrambled order
+        // and a third one in reverse order -- three histories that share nothing but the calls themselves
+        let mut order: Vec<usize> = (0..pts.len()).collect(); rng.shuffle(&mut order);
+        let (p3, o3) = (pts.clone(), order.clone());
+        let scr: Vec<(usize, String)> = in_fresh_thread(move || o3.iter().map(|&i| (i, format!("{:x?}", a5::lonlat_to_cell(LonLat::new(p3[i].0, p3[i].1), res)))).collect());
+        let mut scrambled = vec![String::new(); pts.len()]; for (i, s) in scr { scrambled[i] = s; }
+        let p4 = pts.clone();
+        let rev: Vec<String> = in_fresh_thread(move || { let mut v: Vec<String> = p4.iter().rev().map(|&(lo, la)| format!("{:x?}", a5::lonlat_to_cell(LonLat::new(lo, la), res))).collect(); v.reverse(); v });
+        for i in 0..pts.len() {
+            // a fresh-thread answer for a sample, and always when the three histories disagree
+            let disagree = warm[i] != scrambled[i] || warm[i] != rev[i];
+            let mut results = vec![fnv(&warm[i]), fnv(&scrambled[i]), fnv(&rev[i])];
+            let mut ctx = vec!["scan order".to_string(), "scrambled order".to_string(), "reverse order".to_string()];
+            if disagree || i % 97 == 0 { let (lo, la) = pts[i]; let cold = in_fresh_thread(move || format!("{:x?}", a5::lonlat_to_cell(LonLat::new(lo, la), res))); results.insert(0, fnv(&cold)); ctx.insert(0, "cold thread".into()); }
+            if disagree || i % 23 == 0 {
+                t.emit(json!({"op": "purity", "call": format!("lonlat_to_cell(({:?},{:?}),{}) inside track {}", pts[i].0, pts[i].1, res, k), "results": results, "contexts": ctx, "cold_value": warm[i].clone()}));
+                n += 1;
+            }
+        }
+        t.cut();
+    }
+    n
+}
+
 /// generation counters wrap: P, then the same other call 2^k - 1 (resp. 2^k, 2^k + 1) times, then P again
 fn wraparound(t: &mut Trace, rng: &mut Rng) -> u64 {
     let mut n = 0;
@@ -466,10 +511,11 @@ pub fn gen_c13(tier: &str, seed: u64, out: &str, mc: Option<&str>) -> Value {
     }
     let (n_struct_pairs, n_struct_calls) = structured_pairs(&mut t, tier, &mut rng);
     let n_wrap = wraparound(&mut t, &mut rng);
+    let n_track = tracks(&mut t, tier, &mut rng);
     n_ctx += 3 * n_struct_calls;
     t.finish();
     json!({"files": t.files, "events": t.events, "key_pairs": n_pairs, "histories": n_hist, "structured_cell_pairs": n_struct_pairs,
-           "structured_pair_calls": n_struct_calls, "wraparound_scenarios": n_wrap, "history_steps": n_steps, "public_calls": n_pure,
+           "structured_pair_calls": n_struct_calls, "wraparound_scenarios": n_wrap, "track_events": n_track, "history_steps": n_steps, "public_calls": n_pure,
            "public_call_contexts": n_ctx, "cold_processes": n_proc,
            "samples": [pair_event(keys[3], keys[123], 0, 1, &cold), json!({"call": names[17], "contexts": per_call[17].len()})]})
 }
